@@ -428,16 +428,16 @@ def corrupt(rng, f, kind):
     if kind == 'duplicate_declaration':
         j = rng.randrange(nd)
         k = rng.randint(0, nd)
-        ls = lines[:k] + [lines[j]] + lines[k:]          # a verbatim second copy: same content
-        return out(ls, False)
+        ls = lines[:k] + [lines[j]] + lines[k:]          # a verbatim second copy: still a duplicate declaration
+        return out(ls, True)
     if kind == 'redeclare_differently':
         j = rng.randrange(nd)
         d = f['decls'][j]
         k = rng.randint(0, nd)
         ls = lines[:k] + [f"{d['name']} Something else entirely zz"] + lines[k:]
         used = d['name'] in ['UTIM', 'DATE', 'TIME'] + f['sel']
-        # two conflicting declarations: harmless when the channel is not in the header or the original still wins
-        return out(ls, False, 'redeclared-used' if used else 'redeclared-unused')
+        # two conflicting declarations of one channel: there is no "its declaration" any more
+        return out(ls, True, 'redeclared-used' if used else 'redeclared-unused')
     if kind == 'empty_line':
         k = rng.randint(0, len(lines) if f['final_newline'] else len(lines) - 1)
         if k == 0 and rng.random() < 0.5:
